@@ -370,6 +370,11 @@ func c07TwoParty(k *core.Case) {
 			k.Violate("mismatch", "public-value-length", fmt.Sprintf("%d / %d octets for group size %d", len(pubI), len(pubR), grp), w)
 			return
 		}
+		if k.Index%4 == 3 {
+			// the initiator tried the other group with the same exponent object in the meantime (INVALID_KE_PAYLOAD round)
+			_ = dh.StrToType(libsa.DhNames[1-d]).GetPublicValue(secret)
+			k.Count("initiator_exponent_used_with_the_other_group_in_between", 1)
+		}
 		sharedObj := ini.DhInfo.GetSharedKey(secret, new(big.Int).SetBytes(pubR))
 		shared := append([]byte{}, sharedObj...) // private copy for the reference: what the keying call does to the slice it is handed is not C07's subject
 		if err = ini.GenerateKeyForIKESA(nonces, sharedObj, spii, spir); err != nil {
@@ -461,7 +466,7 @@ func c07(c *core.Ctx) {
 		}
 		k.Count("colliding_secret_pairs", 1)
 	})
-	c.Require("two_party_proposal_carries_an_spi", "objects_built_from_the_sa_keys_dropped_and_collected", "responder_public_value_with_leading_zero_octet", "colliding_secret_pairs", "sa_logged_before_use", "offers_prepared_from_returned_transforms_before", "two_party_runs", "two_party_shared_secret_with_leading_zeros", "held_sa_keys_rechecked", "same_object_keyed_twice")
+	c.Require("initiator_exponent_used_with_the_other_group_in_between", "two_party_proposal_carries_an_spi", "objects_built_from_the_sa_keys_dropped_and_collected", "responder_public_value_with_leading_zero_octet", "colliding_secret_pairs", "sa_logged_before_use", "offers_prepared_from_returned_transforms_before", "two_party_runs", "two_party_shared_secret_with_leading_zeros", "held_sa_keys_rechecked", "same_object_keyed_twice")
 }
 
 // ---------------------------------------------------------------------------
